@@ -5,6 +5,7 @@
 //!       the recorded events; each scenario starts with a `universe` event.
 mod concrete;
 mod exec;
+mod txparse;
 
 use std::io::{BufRead, Write};
 
